@@ -52,6 +52,7 @@ CONFIGS = {
     "missingattr": ("/", "tag", None, True),
     "intvalues": ("|", "name", "int", False),
     # user node classes with their own truth value / value semantics are nodes like any other
+    "falsyvalues": ("/", "name", "falsy", False),   # path attribute values 0, False, 0.0, () - "as a string"
     "falsy": ("/", "name", None, False),
     "eqhash": ("/", "name", None, False),
 }
@@ -82,7 +83,9 @@ def build(m, names, cfg):
         nd = cls()
         val = names[i]
         if transform == "int":
-            val = {"a": 1, "A": 2, "b": 10, "a*": 11}.get(val, 3)
+            val = {"a": 1, "A": 2, "b": 0, "a*": 11}.get(val, 3)
+        elif transform == "falsy":
+            val = {"a": 0, "A": False, "b": 0.0, "a*": ()}.get(val, None)
         if missing and i % 2 == 1:
             strnames.append("None")
         else:
@@ -253,7 +256,7 @@ def plan(tier):
         spec = [(1, 3, NAMES_FULL, "default", 3), (4, 4, NAMES_SMALL, "default", 2),
                 (1, 3, NAMES_SMALL, "semicolon", 2), (1, 3, NAMES_SMALL, "doublecolon", 2), (1, 3, NAMES_SMALL, "customattr", 2),
                 (1, 3, NAMES_SMALL, "missingattr", 2), (1, 3, NAMES_SMALL, "intvalues", 2),
-                (1, 3, NAMES_SMALL, "falsy", 2), (1, 3, NAMES_SMALL, "eqhash", 2),
+                (1, 3, NAMES_SMALL, "falsy", 2), (1, 3, NAMES_SMALL, "eqhash", 2), (1, 3, NAMES_SMALL, "falsyvalues", 2),
                 (2, 3, ("a", "a;b", "b"), "semicolon", 3), (5, 5, ("a", "b"), "doublecolon", 2)]
     else:
         spec = [(1, 4, NAMES_FULL, "default", 3), (5, 5, NAMES_SMALL, "default", 2)] + \
@@ -277,7 +280,7 @@ def run(tier):
         "evaluations": t.c["evaluations"], "distinct_nontrivial": t.c["nontrivial"],
         "rule": "ordered trees x every name assignment over the alphabet (duplicates among siblings, case pairs, wildcard "
                 "characters, the other class's separator, '.') x start x every path of 1..3 components over {names, unknown, "
-                "'..', '.', ''} relative and absolute x ignorecase x relax x 8 separator/pathattr/node-class configurations, against a "
+                "'..', '.', ''} relative and absolute x ignorecase x relax x 9 separator/pathattr/value/node-class configurations, against a "
                 "reference step interpreter (exact node, exact error class, None when relaxed); one Resolver object used before "
                 "and after every single rename of a node (re-use histories); round-trip theorems on "
                 "sibling-unique ordinary names; non-trivial = the path leads to another node than the start node",
